@@ -25,6 +25,18 @@ def conf_for(token):
     }[token]
 
 
+def install(hook):
+    """Register the hook(s) of a setting: one configuration for the package, or ('mix:A:B') configuration A for the package and
+    configuration B for the one module c16pkg.mod_b (the most specific registration wins for that module)."""
+    from beartype.claw import beartype_package
+    if hook.startswith('mix:'):
+        _m, a, b = hook.split(':')
+        beartype_package('c16pkg', conf=conf_for(a))
+        beartype_package('c16pkg.mod_b', conf=conf_for(b))
+    else:
+        beartype_package('c16pkg', conf=conf_for(hook))
+
+
 def probe(thunk):
     with warnings.catch_warnings(record=True) as wl:
         warnings.simplefilter('always')
@@ -71,8 +83,7 @@ def main():
     if arg.get('mode') == 'threads':
         return threads(arg)
     if hook != 'off':
-        from beartype.claw import beartype_package
-        beartype_package('c16pkg', conf=conf_for(hook))
+        install(hook)
     print(json.dumps({'fingerprint': fingerprint()}))
 
 
@@ -89,8 +100,7 @@ def threads(arg):
     sched.import_lock_users()
     sched.restore_real_locks()
     import importlib
-    from beartype.claw import beartype_package
-    beartype_package('c16pkg', conf=conf_for(arg['hook']))
+    install(arg['hook'])
     # warm the machinery up on modules that are not part of the race
     # parent packages are imported up front: two threads importing siblings would otherwise queue on the parent's (real,
     # uncooperative) per-module import lock
